@@ -45,3 +45,44 @@ SPECS = [
         props=["C01", "C02", "C04", "C09", "C14"],
     ),
 ]
+
+SPECS += [
+    IndSpec(
+        "hexital.indicators.wma.WMA",
+        params={"period": ("int", None), "input_value": ("name", None), "round_value": ("int", None), "s": ("int", None)},
+        ctor={"skip": ("s",)},
+        lets={"X": "input_value", "w": "s + period - 1", "eps": "Hulp(round_value)"},
+        extra_pre=COMMON_PRE,
+        inputs=X_NUM,
+        inv={
+            "presence": ("iff(Rd(c, j, N) is not None, j >= w)", ["C04", "C09"]),
+            "type": ("implies(j >= w, isfloat(Rd(c, j, N)))", ["C04", "C09"]),
+            "rounded": ROUNDED,
+            "weighted-mean": ("implies(j >= w, Abs(num(Rd(c, j, N)) - Sigma(0, period, lambda k: num(Rd(c, j - k, X)) * (period - k))"
+                              " / (period * (period + 1) / 2)) <= eps)", ["C04"], {"assume": False}),
+        },
+        variants=[{}, {"input_value": "dotted"}],
+        window="period",
+        props=["C01", "C02", "C04", "C09", "C10", "C14"],
+    ),
+    IndSpec(
+        "hexital.indicators.rma.RMA",
+        params={"period": ("int", None), "input_value": ("name", None), "round_value": ("int", None), "s": ("int", None)},
+        ctor={"skip": ("s",)},
+        lets={"X": "input_value", "w": "s + period - 1", "eps": "Hulp(round_value)", "a": "1.0 / period"},
+        extra_pre=COMMON_PRE,
+        inputs=X_NUM,
+        inv={
+            "presence": ("iff(Rd(c, j, N) is not None, j >= w)", ["C04", "C09"]),
+            "type": ("implies(j >= w, isfloat(Rd(c, j, N)))", ["C04", "C09"]),
+            "rounded": ROUNDED,
+            # decay-weighted mean of the first full window
+            "seed": ("implies(j == w, Abs(num(Rd(c, j, N)) * Sigma(0, period, lambda k: Pow(1 - a, k))"
+                     " - Sigma(0, period, lambda k: Pow(1 - a, k) * num(Rd(c, j - k, X)))) <= eps * Sigma(0, period, lambda k: Pow(1 - a, k)))", ["C04"], {"assume": False}),
+            "recurrence": ("implies(j > w, Abs(num(Rd(c, j, N)) - (a * num(Rd(c, j, X)) + (1 - a) * num(Rd(c, j - 1, N)))) <= eps)", ["C04"]),
+        },
+        variants=[{}, {"input_value": "dotted"}],
+        window="period",
+        props=["C01", "C02", "C04", "C06", "C09", "C10", "C14"],
+    ),
+]
